@@ -160,7 +160,7 @@ Proof.
 Qed.
 Print Assumptions c15_failed_trials_rank_last.
 
-(* MOASHA (shell around the bracket of model/Pareto.v, any priority function): for EVERY sequence of
+(* MOASHA (on_trial_result / on_trial_complete around a self-contained model of _Bracket.on_result, any priority function): for EVERY sequence of
    on_trial_result and on_trial_complete calls, flipping the mode of any subset of metrics and negating
    exactly those reported values gives the same decisions and the same bracket contents - entries made
    through on_trial_complete included *)
@@ -200,8 +200,8 @@ Example c15_example_restore_failures_moasha :
     = [{| e_trial := 1; e_metric := 5 |}; {| e_trial := 2; e_metric := 5 |}; {| e_trial := 3; e_metric := 2 |}] /\
   get_top_list [(1%Z, None); (2%Z, Some (3 # 1)); (3%Z, Some (1 # 1))] 1 Max = ([2%Z], [1; 3]%Z) /\
   get_top_list [(1%Z, None); (2%Z, Some (- (3 # 1))); (3%Z, Some (- (1 # 1)))] 1 Min = ([2%Z], [1; 3]%Z) /\
-  (let prio := fun X : list Pareto.vec => map (fun v => nth 0 v 0) X in
-   let b := [{| Pareto.milestone := 3; Pareto.recorded := [] |}; {| Pareto.milestone := 1; Pareto.recorded := [] |}] in
+  (let prio := fun X : list (list Q) => map (fun v => nth 0 v 0) X in
+   let b := [{| mo_milestone := 3; mo_recorded := [] |}; {| mo_milestone := 1; mo_recorded := [] |}] in
    snd (mo_run prio 3 9 [Min; Max] b [MoComplete 0 1 [1; 7]; MoResult 1 1 [2; 8]; MoResult 2 1 [(1 # 2); 0]]) =
-     [None; Some Pareto.STOP; Some Pareto.CONTINUE]).
+     [None; Some false; Some true]).
 Proof. vm_compute. repeat split; reflexivity. Qed.
